@@ -157,7 +157,12 @@ def rzStep (s : DState) (toks : List String) : DState × String :=
         let head := match e with | none => "ok" | some e => errStr e
         (s, head ++ " " ++ toString b.length ++ " " ++ toString (fnv64 b))
       else
-        let o0 := if pre = "1" || pre = "2" then staleOut else noOut   -- 2: output of an earlier recovery
+        -- 1: stale stub; 2..5: whatever an earlier recovery left: 2 file+index, 3 file only, 4 index only, 5 nothing
+        let o0 : Out :=
+          if pre = "1" || pre = "2" then staleOut
+          else if pre = "3" then ⟨staleOut.file, none, none⟩
+          else if pre = "4" then ⟨none, none, staleOut.index⟩
+          else noOut
         let (o, e) := doRecover s.repo when wv o0
         let head := match e with | none => "ok" | some e => errStr e
         let fileS := match o.file with
